@@ -85,3 +85,14 @@ Theorem c10_crc_calc_bitserial : forall v, Forall (fun b => 0 <= b < 256) v -> c
 Proof. exact crc_calc_is_bitserial. Qed.
 Theorem c10_crc_calc_u32 : forall v, Forall (fun b => 0 <= b < 256) v -> 0 <= crc_calc v < 2 ^ 32.
 Proof. exact crc_calc_u32. Qed.
+
+(* a connection carries more than one packet: after returning a packet the reader stands exactly behind it, for every segmentation
+   of the byte stream, so every framed packet of a stream is read back unchanged in turn (whatever follows the last one) *)
+From VProofs Require Import SegProofs SeqProofs.
+Theorem c10_reader_state_segmentation : forall buf cs e, nonempty_chunks cs -> wfb (buf ++ List.concat cs) ->
+  norm (read_packet2 {| s_buf := buf; s_chunks := cs; s_end := e |}) = norm (read_packet2 {| s_buf := buf ++ List.concat cs; s_chunks := []; s_end := e |}).
+Proof. exact read_packet2_segmentation_state. Qed.
+Theorem c10_read_stream : forall ps ds cs e tail, Forall2 framed ps ds -> nonempty_chunks cs -> wfb (List.concat cs) ->
+  List.concat cs = List.concat ds ++ tail ->
+  read_many (List.length ps) {| s_buf := []; s_chunks := cs; s_end := e |} = map (fun p => PktOk (fst p) (snd p)) ps.
+Proof. exact read_stream_fresh. Qed.
